@@ -90,8 +90,20 @@ pub fn reconcile_aliases(crate_parsed_data: &mut BTreeMap<CrateName, ParsedData>
             .consts
             .sort_by(|a, b| a.id.original.cmp(&b.id.original));
 
-        // put back our import types for file generation.
-        parsed_data.import_types = import_types;
+        // put back our import types for file generation. The generated files import a type under
+        // the name it is defined with, which is the serde name for a renamed type.
+        parsed_data.import_types = import_types
+            .into_iter()
+            .map(|mut import| {
+                if let Some(renamed) = serde_renamed
+                    .get(&import.type_name)
+                    .and_then(|name_map| name_map.get(&import.base_crate))
+                {
+                    import.type_name = renamed.clone();
+                }
+                import
+            })
+            .collect();
     }
 }
 
